@@ -284,6 +284,50 @@ func c17(r *rep.Run) {
 			r.Sample(10, map[string]interface{}{"A": c17Lit(vs[0].a), "B": c17Lit(vs[0].b), "variants": len(vs)})
 		}
 	})
+	// string elements containing blanks: lists that differ only in where the
+	// element boundaries fall, compiled one after the other in one process
+	{
+		c := &c17eval{h: hs[0], vars: vars, n: &evals}
+		words := [][]string{{"x y", "z"}, {"x", "y z"}, {"x y z"}, {"x", "y", "z"}, {"x  y", "z"}, {"x y", " z"}, {"", "x y z"}, {"x y z", ""}}
+		for rep := 0; rep < 2; rep++ {
+			for _, la := range words {
+				for _, lb := range words {
+					for _, f := range [][2]bool{{false, false}, {false, true}, {true, false}} {
+						for _, o := range opts {
+							want, werr := ref.Builtin("overlap", []interface{}{la, lb})
+							got := c.run("overlap", la, lb, f[0], f[1], o)
+							if !drive.SameOutcome(got, refOut(want, werr)) {
+								r.Violate("overlap-wrong", "blanks", sprintf("(overlap %s %s) = %s, expected %v", c17Lit(la), c17Lit(lb), got, want), map[string]interface{}{"A": c17Lit(la), "B": c17Lit(lb), "config": o.String()})
+							}
+						}
+					}
+				}
+				for _, probe := range []string{"x", "x y", "y z", "x y z", "z", " z", ""} {
+					for _, f := range [][2]bool{{false, false}, {true, false}} {
+						for _, o := range opts {
+							want, werr := ref.Builtin("in", []interface{}{probe, la})
+							got := c.run("in", probe, la, f[0], f[1], o)
+							if !drive.SameOutcome(got, refOut(want, werr)) {
+								r.Violate("in-wrong", "blanks", sprintf("(in %q %s) = %s, expected %v", probe, c17Lit(la), got, want), map[string]interface{}{"list": c17Lit(la), "probe": probe, "config": o.String()})
+							}
+						}
+					}
+				}
+			}
+		}
+		// the same for int lists whose texts are related: (1 23) vs (12 3) vs (123)
+		for _, la := range [][]int64{{1, 23}, {12, 3}, {123}, {1, 2, 3}, {-1, 23}, {-12, 3}} {
+			for _, probe := range []int64{1, 12, 123, 23, 3, -1} {
+				for _, o := range opts {
+					want, werr := ref.Builtin("in", []interface{}{probe, la})
+					got := c.run("in", probe, la, false, false, o)
+					if !drive.SameOutcome(got, refOut(want, werr)) {
+						r.Violate("in-wrong", "int-texts", sprintf("(in %d %s) = %s, expected %v", probe, c17Lit(la), got, want), nil)
+					}
+				}
+			}
+		}
+	}
 	// mismatches and odd operands
 	c := &c17eval{h: hs[0], vars: vars, n: &evals}
 	odd := []interface{}{[]int64{1, 2}, []string{"a"}, []int64{}, []string{}, int64(1), "a", true, nil}
